@@ -51,13 +51,14 @@ def forwarded : CType → Bool
   | _ => false
 
 /-- `parseComments` after `comments.Parse`: `cmt` is the (at most one) comment of the line.
-    `hasNL`: whether the line carried a trailing "\n" (matters only for `len(r.buf) - 1`). -/
+    `hasNL`: whether the line carried a trailing "\n" (mattered for `len(r.buf) - 1`; since the fix of the ignore/file
+    diagnostic the last column is `len(bytes.TrimRight(r.buf, "\r\n"))`, the same with and without a line break). -/
 def stepCore (s : RState) (lineno : Nat) (hasNL : Bool) (l : List Char) (cmt : Option Comment) : RState × Out :=
   if s.skipAll then (s, ⟨emptyLine s.inBegin cmt l, [], []⟩)
   else
     let sk := match cmt with | some c => skipOf c.ctype | none => Skip.none
     let fwd := match cmt with | some c => if forwarded c.ctype then [c] else [] | none => []
-    let bufLen : Int := (byteLen l : Int) + (if hasNL then 1 else 0)
+    let bufLen : Int := (byteLen ((l.reverse.dropWhile (· == '\r')).reverse) : Int) + 1
     match sk with
     | .file =>
       let off := match cmt with | some c => c.offset | none => 0
